@@ -187,6 +187,31 @@ func c01Sequences(c *core.Ctx) {
 			c.Check(isPhi && strings.Contains(core.Key(call.Call.Args[0]), "NeedFullSync") || strings.Contains(core.Key(call.Call.Args[0]), "NeedFullSync"), "the converter is told the decided mode: "+recvType(call), at(c, sy), "", "Sync receives `"+core.Key(call.Call.Args[0])+"`, not the needFullSync decision: model cleared but converter runs partially (or the reverse)")
 		}
 		c.Check(n >= 4, "converters receive the mode", c.Pos(fn.Pos()), "", fmt.Sprintf("%d Sync(mode) calls (3 gateway versions + ingress)", n))
+		// each Gateway API version is converted exactly when that version is served; the ingress converter always
+		for _, sy := range findStep(fn, seqStep{"iface.Sync", false}) {
+			call := sy.(*ssa.Call)
+			who := recvType(call)
+			switch {
+			case strings.Contains(who, "v1.Gateway"):
+				c.Check(guardedBy(sy, has("options.HasGatewayV1"), true), "Gateway v1 is converted iff served", at(c, sy), "", "not on the HasGatewayV1 branch")
+			case strings.Contains(who, "v1beta1.Gateway"):
+				c.Check(guardedBy(sy, has("options.HasGatewayB1"), true), "Gateway v1beta1 is converted iff served", at(c, sy), "", "not on the HasGatewayB1 branch")
+			case strings.Contains(who, "v1alpha2.Gateway"):
+				c.Check(guardedBy(sy, has("options.HasGatewayA2"), true), "Gateway v1alpha2 is converted iff served", at(c, sy), "", "not on the HasGatewayA2 branch")
+			case strings.HasPrefix(who, "ingress.Config"):
+				c.Check(len(guardsOf(sy)) == 0, "the ingress converter always runs", at(c, sy), "", "the ingress conversion is conditional")
+			}
+		}
+		// tcp services from the ConfigMap: whenever one is configured (Cur or New set)
+		for _, s := range core.Calls(fn, false) {
+			if strings.HasSuffix(core.CalleeName(s.Common()), "configmap.NewTCPServicesConverter") {
+				t := core.ExtractTable(fn)
+				condTable(c, "the TCP ConfigMap converter runs whenever a TCP ConfigMap is configured", t, s.Instr, matchers{
+					"cur": has("TCPConfigMapDataCur != nil"),
+					"new": has("TCPConfigMapDataNew != nil"),
+				}, func(v map[string]bool) bool { return v["cur"] || v["new"] })
+			}
+		}
 	}
 }
 
